@@ -127,6 +127,10 @@ class Window:
             k = op[0]
             if k == "atleast":
                 st = better(st, op[1])
+            elif k == "atleast_if_nonneg":
+                # `cur != size` excludes avail == 0; that yields avail >= 1 only under the invariant avail >= 0
+                if leq(form(0), st):
+                    st = better(st, op[1])
             elif k == "need":
                 if self._collect and e is not None:
                     if leq(op[1], st):
@@ -134,7 +138,12 @@ class Window:
                     else:
                         self.violations.append((e, op[1], st, op[2]))
             elif k == "adv":
-                if st is not None and op[1] is not None and leq(op[1], st):
+                if st is not None and st != UNKNOWN and st[0] >= 10 ** 5 and op[1] is not None and not op[1][1]:
+                    if self._collect and e is not None and len(op) > 2:
+                        self.checked.append((e, op[2]))     # TOP (optimistic interprocedural start) absorbs constant advances; keeps the chain finite
+                elif st is not None and op[1] is not None and leq(op[1], st):
+                    if self._collect and e is not None and len(op) > 2:
+                        self.checked.append((e, op[2]))
                     c = Counter(st[1])
                     c.subtract(Counter(op[1][1]))
                     st = form(st[0] - op[1][0], list(c.elements()))
@@ -161,3 +170,54 @@ class Window:
             if c is not None:
                 st = self._apply(st, self.edge_cb(c, lab))
         return st
+
+
+TOP = (10 ** 6, ())       # "no path reaches here yet" for interprocedural summaries (greatest element)
+
+
+def guard_ops(c, truth, cur, sizes, extra=None):
+    """knowledge about `size - cur` gained when condition `c` evaluates to `truth`.
+
+    cur   : symbol of the cursor (as produced by lin(): variable name or shown member expression)
+    sizes : set of symbols that denote the limit (e.g. '_text.size()')
+    extra : callback(c, truth) -> ops for idioms the rule knows (callee post-conditions, eof() accessors)
+    Handles !, &&, || and the six comparisons in either operand order."""
+    from .rules.common import cmp_parts
+    c = strip_casts(c)
+    if c is None:
+        return []
+    k = c.get("k")
+    if k == "un" and c.get("op") == "!":
+        return guard_ops(c["v"], not truth, cur, sizes, extra)
+    if k == "bin" and c.get("op") == "&&":
+        if truth:
+            return guard_ops(c["lhs"], True, cur, sizes, extra) + guard_ops(c["rhs"], True, cur, sizes, extra)
+        return []
+    if k == "bin" and c.get("op") == "||":
+        if not truth:
+            return guard_ops(c["lhs"], False, cur, sizes, extra) + guard_ops(c["rhs"], False, cur, sizes, extra)
+        return []
+    ops = list(extra(c, truth) or []) if extra else []
+    cp = cmp_parts(c)
+    if not cp:
+        return ops
+    op, l, r = cp
+    fl, fr = lin(l), lin(r)
+    if fl is None or fr is None:
+        return ops
+    flip = {"<": ">", ">": "<", "<=": ">=", ">=": "<=", "==": "==", "!=": "!="}
+    if len(fl[1]) == 1 and fl[1][0] in sizes and fl[0] == 0 and cur in fr[1]:
+        fl, fr, op = fr, fl, flip[op]
+    if not (len(fr[1]) == 1 and fr[1][0] in sizes and fr[0] == 0 and list(fl[1]).count(cur) == 1):
+        return ops
+    rest = form(fl[0], [s for s in fl[1] if s != cur])
+    # cur + rest  op  size
+    if not truth:
+        op = {"<": ">=", ">=": "<", ">": "<=", "<=": ">", "==": "!=", "!=": "=="}[op]
+    if op == "<":
+        ops.append(("atleast", form(rest[0] + 1, rest[1])))
+    elif op == "<=":
+        ops.append(("atleast", rest))
+    elif op == "!=" and rest == form(0):
+        ops.append(("atleast_if_nonneg", form(1)))
+    return ops
